@@ -50,6 +50,8 @@ var ErrInjected = errors.New("injected fault")
 type InjectedError struct {
 	ID   string
 	Kind FaultKind
+	// Class selects the API reason a rejected call reports (all rejected calls of one invocation report the same one)
+	Class int
 }
 
 func (e *InjectedError) Error() string { return fmt.Sprintf("injected fault %s (%s)", e.ID, e.Kind) }
@@ -65,7 +67,17 @@ func (e *InjectedError) Status() metav1.Status {
 	case LostReply, StopAfter:
 		st.Reason, st.Code = metav1.StatusReasonTimeout, 504
 	default:
-		st.Reason, st.Code = metav1.StatusReasonServiceUnavailable, 503
+		// a rejected call: unavailable, or refused by quota / admission / authorisation, an internal error, or throttling
+		switch e.Class % 4 {
+		case 1:
+			st.Reason, st.Code = metav1.StatusReasonForbidden, 403
+		case 2:
+			st.Reason, st.Code = metav1.StatusReasonInternalError, 500
+		case 3:
+			st.Reason, st.Code = metav1.StatusReasonTooManyRequests, 429
+		default:
+			st.Reason, st.Code = metav1.StatusReasonServiceUnavailable, 503
+		}
 	}
 	return st
 }
@@ -229,7 +241,11 @@ func (c *Client) do(call *Call, apply func() error) error {
 		switch fk {
 		case Reject:
 			call.Outcome = OutRejected
-			err = &InjectedError{ID: fmt.Sprintf("f-%d", call.Seq), Kind: fk}
+			class := 0
+			if inv != nil {
+				class = inv.ID
+			}
+			err = &InjectedError{ID: fmt.Sprintf("f-%d", call.Seq), Kind: fk, Class: class}
 		case StopBefore:
 			call.Outcome = OutVoid
 			if inv != nil {
